@@ -27,19 +27,59 @@ Definition tol : Qc := qc 1 100000000000.   (* 1e-11 relative *)
 Definition unit_named (k : string) (nm : string) : unit :=
   match find (fun u => String.eqb (uname u) nm) (cls k) with Some u => u | None => mkUnit "" [] (Q2Qc 0) (Q2Qc 0) end.
 
+(* scale of a conversion: |x * tv/tu| + |au - av|.  The float result must agree with the exact one to
+   `tol` RELATIVE to that scale (a purely relative test would be unfair under affine cancellation,
+   an absolute one -- lib `close` -- is blind for results << 1).  Scale 0 (x = 0, no shift) demands
+   the exact result 0. *)
+Definition conv_scale (x : Qc) (u v : unit) : Qc :=
+  (Qcabs (x * (utimes v / utimes u)) + Qcabs (uadd u - uadd v))%Qc.
+Fixpoint closeS (u v : unit) (xs ys zs : list Qc) : bool :=   (* xs sources, ys model, zs implementation *)
+  match xs, ys, zs with
+  | [], [], [] => true
+  | x :: xs', y :: ys', z :: zs' => sclose tol (conv_scale x u v) y z && closeS u v xs' ys' zs'
+  | _, _, _ => false
+  end.
 (* expected result of  cls(x, units=un).to(name):  Some (float, unit name)  or None (TypeError) *)
 Definition check_to (k un : string) (x : Qc) (name : string) (expect : option (Qc * string)) : bool :=
   match to_name (cls k) (mkValue x (unit_named k un)) name, expect with
-  | Some r, Some (y, rn) => close tol (vx r) y && String.eqb (uname (vu r)) rn
+  | Some r, Some (y, rn) => sclose tol (conv_scale x (unit_named k un) (vu r)) (vx r) y && String.eqb (uname (vu r)) rn
   | None, None => true
   | _, _ => false
   end.
 Definition check_to_array (k un : string) (xs : list Qc) (name : string) (expect : option (list Qc * string)) : bool :=
   match to_array (cls k) xs (unit_named k un) name, expect with
-  | Some (ys, v), Some (zs, rn) => closeL tol ys zs && String.eqb (uname v) rn
+  | Some (ys, v), Some (zs, rn) => closeS (unit_named k un) v xs ys zs && String.eqb (uname v) rn
   | None, None => true
   | _, _ => false
   end.
+(* object-state model of ValueArray.to / to_ :
+   to : `same` = the returned object IS the source; expect = returned numbers+unit or None (raised);
+        after = numbers+unit of the source afterwards *)
+Definition arr_matches (s b : arr) (e : list Qc * string) : bool :=
+  closeS (aunit s) (aunit b) (axs s) (axs b) (fst e) && String.eqb (uname (aunit b)) (snd e).
+Definition check_arr_to (k un : string) (xs : list Qc) (name : string) (same : bool)
+    (expect : option (list Qc * string)) (after : list Qc * string) : bool :=
+  let s := mkArr xs (unit_named k un) in
+  match arr_to (cls k) s name, expect with
+  | (s', RSame), Some e => same && arr_matches s s e && arr_matches s s' after
+  | (s', RNew b), Some e => negb same && arr_matches s b e && arr_matches s s' after
+  | (s', RErr), None => arr_matches s s' after
+  | _, _ => false
+  end.
+Definition check_arr_to_ (k un : string) (xs : list Qc) (name : string) (raised : bool)
+    (after : list Qc * string) : bool :=
+  let s := mkArr xs (unit_named k un) in
+  match arr_to_ (cls k) s name with
+  | (s', RNone) => negb raised && arr_matches s s' after
+  | (s', RErr) => raised && arr_matches s s' after
+  | _ => false
+  end.
+Definition arr_named (k un : string) (xs : list Qc) : arr := mkArr xs (unit_named k un).
+Definition arr_close (r : arr) (e : list Qc * string) : bool :=
+  closeL tol (axs r) (fst e) && String.eqb (uname (aunit r)) (snd e).
+Definition oq_close (a : option Qc) (b : Qc) : bool :=
+  match a with Some x => close tol x b | None => false end.
+Definition lb_eqb (a b : list bool) : bool := list_eqb Bool.eqb a b.
 
 Definition mk (k un : string) (x : Qc) : value := mkValue x (unit_named k un).
 Definition ob_eqb (a b : option bool) : bool :=
